@@ -1050,7 +1050,7 @@ pub fn build_quads(kind: Flat, syms: &[u8]) -> Box<dyn DynDs> {
 }
 
 /// A bit vector that reached its content through a history rather than one `collect()`.
-pub fn build_bits_grown(frozen: bool, zeros: usize, via_extend: bool, tail: &str) -> Box<dyn DynDs> {
+pub fn build_bits_grown(frozen: bool, zeros: usize, via_extend: bool, tail: &str, patches: &[(usize, usize, u64)]) -> Box<dyn DynDs> {
     let mut v = if via_extend {
         let mut v = BitVectorMut::new();
         v.extend_with_zeros(zeros);
@@ -1065,6 +1065,11 @@ pub fn build_bits_grown(frozen: bool, zeros: usize, via_extend: bool, tail: &str
         }
     } else {
         v.extend(bits.iter().copied());
+    }
+    for &(index, len, bits) in patches {
+        if index + len <= v.len() && (1..=64).contains(&len) {
+            v.set_bits(index, len, if len == 64 { bits } else { bits & ((1u64 << len) - 1) });
+        }
     }
     if frozen {
         Box::new(BvDs(BitVector::from(v)))
